@@ -4,12 +4,19 @@
    - a worker finishing any pending task at any moment - which is the schedule.
 
    Tasks 1..NT in payload order.  raises \subseteq Tasks = payloads whose function raises an exception that the loop is asked to
-   capture (the Result then carries the exception); they are ordinary results.                                           *)
+   capture (the Result then carries the exception); they are ordinary results.
+
+   Cancellation (constant Cancels): every call of parproc() creates its OWN stop event, which every Result carries; the consumer
+   may set it after any result it received (Cancel).  The generator tests it when it is resumed after a yield (leaves the
+   as_completed loop), at the top of `while futures` (shuts the pool down and returns) and before refilling the window; a task that
+   starts after the event is set returns at once with InterruptedError.  A cancelled run yields no duplicates, submits nothing more
+   and terminates; exactly-one-result-per-payload is claimed for runs that are never cancelled.                          *)
 EXTENDS Naturals, Sequences, FiniteSets, TLC
 
 CONSTANTS NT,         \* number of payloads
           Window,     \* 1 + max_workers : size of the initial submission window of the process-pool branch
-          Modes       \* subset of {"window", "all", "seq", "single"} explored from Init
+          Modes,      \* subset of {"window", "all", "seq", "single"} explored from Init
+          Cancels     \* BOOLEAN: the consumer may set the stop event
 Tasks == 1..NT
 
 VARIABLES mode,      \* which branch of parproc()/executor_pmap runs
@@ -20,61 +27,72 @@ VARIABLES mode,      \* which branch of parproc()/executor_pmap runs
           futures,   \* the generator's dict of futures: submitted and not yet popped
           snap,      \* the set as_completed() is iterating (snapshot of futures at call time)
           yielded,   \* sequence of yielded results [t |-> task, exc |-> BOOLEAN]
-          pc, cur
-vars == <<mode, raises, unsub, pending, finished, futures, snap, yielded, pc, cur>>
+          pc, cur,
+          stop       \* this call's stop event
+vars == <<mode, raises, unsub, pending, finished, futures, snap, yielded, pc, cur, stop>>
 
 Min(a, b) == IF a < b THEN a ELSE b
 Res(t) == [t |-> t, exc |-> t \in raises]
+\* sequential / single mode: a task that starts after the stop event was set returns a Result carrying InterruptedError
+ResSeq(t) == [t |-> t, exc |-> t \in raises \/ stop]
 
 Init == /\ mode \in Modes /\ raises \in SUBSET Tasks
         /\ (mode = "single" => NT = 1)
         /\ unsub = 1 /\ pending = {} /\ finished = {} /\ futures = {} /\ snap = {}
-        /\ yielded = <<>> /\ pc = "Start" /\ cur = 0
+        /\ yielded = <<>> /\ pc = "Start" /\ cur = 0 /\ stop = FALSE
 
 \* ---- parproc(): the single-task and sequential shortcuts
 Single == /\ pc = "Start" /\ NT = 1 /\ yielded' = <<Res(1)>> /\ unsub' = 2 /\ pc' = "Done"
-          /\ UNCHANGED <<mode, raises, pending, finished, futures, snap, cur>>
+          /\ UNCHANGED <<mode, raises, pending, finished, futures, snap, cur, stop>>
 SeqStep == /\ pc = "Start" /\ mode = "seq" /\ NT # 1
-           /\ IF unsub <= NT THEN yielded' = Append(yielded, Res(unsub)) /\ unsub' = unsub + 1 /\ pc' = pc
+           /\ IF unsub <= NT THEN yielded' = Append(yielded, ResSeq(unsub)) /\ unsub' = unsub + 1 /\ pc' = pc
               ELSE pc' = "Done" /\ UNCHANGED <<yielded, unsub>>
-           /\ UNCHANGED <<mode, raises, pending, finished, futures, snap, cur>>
+           /\ UNCHANGED <<mode, raises, pending, finished, futures, snap, cur, stop>>
 
 \* ---- executor_pmap
 Empty == /\ pc = "Start" /\ mode \in {"window", "all"} /\ NT = 0 /\ pc' = "Done"       \* 'if not tasks: return'
-         /\ UNCHANGED <<mode, raises, unsub, pending, finished, futures, snap, yielded, cur>>
+         /\ UNCHANGED <<mode, raises, unsub, pending, finished, futures, snap, yielded, cur, stop>>
 InitialSubmit == /\ pc = "Start" /\ mode \in {"window", "all"} /\ NT > 1
                  /\ LET k == IF mode = "window" THEN Min(Window, NT) ELSE NT IN
                     /\ futures' = 1..k /\ pending' = 1..k /\ unsub' = k + 1
-                 /\ pc' = "While" /\ UNCHANGED <<mode, raises, finished, snap, yielded, cur>>
+                 /\ pc' = "While" /\ UNCHANGED <<mode, raises, finished, snap, yielded, cur, stop>>
 
 While == /\ pc = "While"
-         /\ IF futures = {} THEN pc' = "Done" /\ snap' = snap
+         /\ IF futures = {} \/ stop THEN pc' = "Done" /\ snap' = snap        \* `while futures:` / `if stop.is_set(): shutdown; break`
             ELSE pc' = "For" /\ snap' = futures                \* as_completed(futures) takes a snapshot
-         /\ UNCHANGED <<mode, raises, unsub, pending, finished, futures, yielded, cur>>
+         /\ UNCHANGED <<mode, raises, unsub, pending, finished, futures, yielded, cur, stop>>
 
 Complete(t) == /\ t \in pending /\ pending' = pending \ {t} /\ finished' = finished \cup {t}
-               /\ UNCHANGED <<mode, raises, unsub, futures, snap, yielded, pc, cur>>
+               /\ UNCHANGED <<mode, raises, unsub, futures, snap, yielded, pc, cur, stop>>
 
 Observe(t) == /\ pc = "For" /\ t \in snap /\ t \in finished   \* as_completed yields a finished future of its snapshot
               /\ snap' = snap \ {t} /\ cur' = t
               /\ futures' = futures \ {t}                      \* futures.pop(future)
               /\ finished' = finished \ {t}
-              /\ pc' = "Refill" /\ UNCHANGED <<mode, raises, unsub, pending, yielded>>
+              /\ pc' = "Refill" /\ UNCHANGED <<mode, raises, unsub, pending, yielded, stop>>
 
 ForEnd == /\ pc = "For" /\ snap = {} /\ pc' = "While"
-          /\ UNCHANGED <<mode, raises, unsub, pending, finished, futures, snap, yielded, cur>>
+          /\ UNCHANGED <<mode, raises, unsub, pending, finished, futures, snap, yielded, cur, stop>>
 
-Refill == /\ pc = "Refill"                                       \* for task in islice(taskiter, 1): submit
-          /\ IF unsub <= NT
+Refill == /\ pc = "Refill"                                       \* if not stop.is_set(): for task in islice(taskiter, 1): submit
+          /\ IF unsub <= NT /\ ~stop
              THEN futures' = futures \cup {unsub} /\ pending' = pending \cup {unsub} /\ unsub' = unsub + 1
              ELSE UNCHANGED <<futures, pending, unsub>>
-          /\ pc' = "Yield" /\ UNCHANGED <<mode, raises, finished, snap, yielded, cur>>
+          /\ pc' = "Yield" /\ UNCHANGED <<mode, raises, finished, snap, yielded, cur, stop>>
 
-Yield == /\ pc = "Yield" /\ yielded' = Append(yielded, Res(cur)) /\ pc' = "For"
-         /\ UNCHANGED <<mode, raises, unsub, pending, finished, futures, snap, cur>>
+\* `yield future.result()`: the generator is suspended and the consumer holds the Result (and, through it, the stop event)
+Yield == /\ pc = "Yield" /\ yielded' = Append(yielded, Res(cur)) /\ pc' = "Suspended"
+         /\ UNCHANGED <<mode, raises, unsub, pending, finished, futures, snap, cur, stop>>
+\* the consumer asks for the next result: `if stop.is_set(): break` leaves the as_completed loop
+Resume == /\ pc = "Suspended" /\ pc' = (IF stop THEN "While" ELSE "For")
+          /\ UNCHANGED <<mode, raises, unsub, pending, finished, futures, snap, yielded, cur, stop>>
+\* the consumer sets the stop event of THIS call (result.stop.set()); in sequential mode between two results
+Cancel == /\ Cancels /\ ~stop /\ (pc = "Suspended" \/ (pc = "Start" /\ mode = "seq" /\ Len(yielded) > 0))
+          /\ stop' = TRUE
+          /\ UNCHANGED <<mode, raises, unsub, pending, finished, futures, snap, yielded, pc, cur>>
 
-Gen == Single \/ SeqStep \/ Empty \/ InitialSubmit \/ While \/ ForEnd \/ Refill \/ Yield \/ \E t \in Tasks : Observe(t)
-Env == \E t \in Tasks : Complete(t)
+Gen == Single \/ SeqStep \/ Empty \/ InitialSubmit \/ While \/ ForEnd \/ Refill \/ Yield \/ Resume \/ \E t \in Tasks : Observe(t)
+Env == (\E t \in Tasks : Complete(t)) \/ Cancel
 Next == Gen \/ Env \/ (pc = "Done" /\ UNCHANGED vars)
 Spec == Init /\ [][Next]_vars /\ WF_vars(Gen) /\ \A t \in Tasks : WF_vars(Complete(t))
 
@@ -84,12 +102,16 @@ YTasks == {yielded[i].t : i \in 1..Len(yielded)}
 TypeOK == /\ pending \subseteq Tasks /\ finished \subseteq Tasks /\ futures \subseteq Tasks /\ snap \subseteq Tasks
           /\ pending \cap finished = {} /\ unsub \in 1..(NT + 1)
 NoDup == \A i, j \in 1..Len(yielded) : i # j => yielded[i].t # yielded[j].t
-NoLoss == \A t \in Tasks : \/ t >= unsub \/ t \in futures \/ t \in YTasks
+NoLoss == stop \/ \A t \in Tasks : \/ t >= unsub \/ t \in futures \/ t \in YTasks
                            \/ (pc \in {"Refill", "Yield"} /\ t = cur)
 WindowBound == mode = "window" => Cardinality(futures) <= Window /\ pending \cup finished \subseteq futures \cup {cur}
-ExactlyOnce == pc = "Done" => (YTasks = Tasks /\ Len(yielded) = NT)
+ExactlyOnce == (pc = "Done" /\ ~stop) => (YTasks = Tasks /\ Len(yielded) = NT)
 \* same multiset as the sequential mode: one result per payload with that payload's own outcome
-SameAsSequential == pc = "Done" => \A t \in Tasks : \E i \in 1..Len(yielded) : yielded[i] = Res(t)
+SameAsSequential == (pc = "Done" /\ ~stop) => \A t \in Tasks : \E i \in 1..Len(yielded) : yielded[i] = Res(t)
+\* a cancelled run: what was yielded are results of distinct payloads with their own outcomes (in sequential mode the payloads
+\* started after the cancellation carry InterruptedError), and nothing is submitted after the event is set
+CancelledSound == stop => \A i \in 1..Len(yielded) : yielded[i].t \in Tasks /\ (yielded[i].exc \/ yielded[i].t \notin raises)
+NoSubmitAfterCancel == [][stop => futures' \subseteq futures]_vars
 \* a captured exception never blocks: whenever work remains, some action is enabled (no deadlock before Done)
 CapturedNeverBlocks == pc # "Done" => ENABLED (Gen \/ Env)
 Finishes == <>(pc = "Done")
